@@ -24,6 +24,7 @@ func devMain(args []string) {
 	races := fs.Bool("races", false, "race monitor")
 	intm := fs.Bool("int", false, "Int mode")
 	orders := fs.Bool("orders", false, "map orders")
+	logen := fs.Bool("log", false, "trace logging enabled (zerolog events report Enabled())")
 	workers := fs.Int("j", 16, "workers")
 	solver := fs.String("solver", defaultSolver(), "solver binary")
 	maxp := fs.Int("maxpaths", 0, "path budget")
@@ -40,7 +41,7 @@ func devMain(args []string) {
 		os.Exit(2)
 	}
 	pkg := P.pkgs[modJoin(P.modPath, pkgPath)]
-	spec := HarnessSpec{Pkg: pkgPath, Func: fn, MaxPaths: *maxp, Opts: ExecOpts{Schedule: *sched, Preemptions: *pre, Races: *races, IntMode: *intm, MapOrders: *orders, NoBatch: *nobatch}, TimeoutMs: *tmo}
+	spec := HarnessSpec{Pkg: pkgPath, Func: fn, MaxPaths: *maxp, Opts: ExecOpts{Schedule: *sched, Preemptions: *pre, Races: *races, IntMode: *intm, MapOrders: *orders, NoBatch: *nobatch, LogEnabled: *logen}, TimeoutMs: *tmo}
 	st := Explore(P, pkg, spec, *workers, *solver, 30000)
 	fmt.Printf("paths=%d completed=%d infeasible=%d steps=%d wall=%v\n", st.Paths, st.Completed, st.Infeasible, st.Steps, st.Wall)
 	fmt.Printf("solver: %+v\n", st.Solver)
